@@ -179,22 +179,28 @@ func tieInput(r *common.Rng, size int) *input {
 	nT := 2 + size // tables per file
 	rootT := pick(r, []string{"Zed", "account", "B2", "b10", "Order", "item"}, nT)
 	partT := pick(r, []string{"Ua", "zlog", "A9", "customer", "Payment", "m"}, nT)
+	meta := &tieMeta{App: "Shop", Cols: map[string][]nameLine{}}
 	var root, part strings.Builder
+	line := 1 // line number of the next line written (the two files are line-aligned)
 	root.WriteString("import part\n")
 	part.WriteString("\n") // keeps both files line-aligned
 	root.WriteString("Shop [team=\"red\"]:\n")
 	part.WriteString("Shop:\n")
+	line += 2
 	for i := 0; i < nT; i++ {
 		nc := between(r, 2, 3+size)
 		// table i of the root file: every second one is continued in the other file on the same lines (column
 		// ties); the others face a different table that starts on the same line (table ties)
 		shared := i%2 == 0
 		fmt.Fprintf(&root, "    !table %s:\n", rootT[i])
-		if shared {
-			fmt.Fprintf(&part, "    !table %s:\n", rootT[i])
-		} else {
-			fmt.Fprintf(&part, "    !table %s:\n", partT[i])
+		meta.Tables = append(meta.Tables, nameLine{rootT[i], line})
+		otherT := rootT[i]
+		if !shared {
+			otherT = partT[i]
+			meta.Tables = append(meta.Tables, nameLine{partT[i], line})
 		}
+		fmt.Fprintf(&part, "    !table %s:\n", otherT)
+		line++
 		rc := pick(r, []string{"id", "Name", "zip", "amount", "B", "a"}, nc)
 		pc := pick(r, []string{"k9", "K10", "Total", "created", "c", "Z"}, nc)
 		for j := 0; j < nc; j++ {
@@ -203,17 +209,52 @@ func tieInput(r *common.Rng, size int) *input {
 				pk = " [~pk]"
 			}
 			fmt.Fprintf(&root, "        %s <: int%s\n", rc[j], pk)
+			meta.Cols[rootT[i]] = append(meta.Cols[rootT[i]], nameLine{rc[j], line})
 			if shared {
 				fmt.Fprintf(&part, "        %s <: string\n", pc[j])
 			} else {
 				fmt.Fprintf(&part, "        %s <: int%s\n", pc[j], pk)
 			}
+			meta.Cols[otherT] = append(meta.Cols[otherT], nameLine{pc[j], line})
+			line++
 		}
 	}
 	root.WriteString("    E:\n        ...\nProj [appfmt=\"%(appname)\"]:\n    all:\n        Shop\nSeqs [note=\"sequences\"]:\n    S:\n        Shop <- E\n")
 	old := strings.Replace(root.String(), "import part\n", "\n", 1)
-	return &input{Text: root.String(), Files: map[string]string{"part.sysl": part.String()}, Old: old,
+	return &input{Text: root.String(), Files: map[string]string{"part.sysl": part.String()}, Old: old, Ties: meta,
 		Project: "Proj", SeqProj: "Seqs", Group: "team", Apps: []string{"Shop", "Proj", "Seqs"}}
+}
+
+// ---- schema models for the relgom code generator: one application made of tables only (what relgom supports) ----
+
+func schemaInput(r *common.Rng, size int) *input {
+	nT := 3 + size
+	tabs := pick(r, []string{"Zed", "account", "B2", "b10", "Order", "item", "Ua", "zlog"}, nT)
+	var sb strings.Builder
+	sb.WriteString("Store [team=\"red\"]:\n")
+	type col struct{ n, t string }
+	pks := map[string]col{}
+	for i, t := range tabs {
+		fmt.Fprintf(&sb, "    !table %s:\n", t)
+		cols := pick(r, fieldPool, between(r, 3, 4+size))
+		for j, c := range cols {
+			ty := []string{"int", "string", "bool", "float", "date", "datetime", "decimal(10.2)", "string(30)"}[r.Intn(8)]
+			attr := ""
+			switch {
+			case j == 0:
+				ty, attr = "int", " [~pk]"
+				pks[t] = col{c, ty}
+			case j == 1 && i > 0 && r.Bool():
+				ref := tabs[r.Intn(i)]
+				ty = ref + "." + pks[ref].n
+			case r.Chance(1, 3):
+				ty += "?"
+			}
+			fmt.Fprintf(&sb, "        %s <: %s%s\n", c, ty, attr)
+		}
+	}
+	sb.WriteString("    E:\n        ...\nProj [appfmt=\"%(appname)\"]:\n    all:\n        Store\nSeqs [note=\"sequences\"]:\n    S:\n        Store <- E\n")
+	return &input{Text: sb.String(), Project: "Proj", SeqProj: "Seqs", Group: "team", Apps: []string{"Store", "Proj", "Seqs"}}
 }
 
 // ---- older version of a model for the delta script ----
@@ -373,6 +414,21 @@ func genForeign(r *common.Rng, kind string, size int) string {
 	return sb.String()
 }
 
+// withClashingSchemaNames appends two object schemas `9a` and `_9a` (different properties) to a generated document:
+// getSyslSafeName maps both to `_9a`
+func withClashingSchemaNames(doc, kind string) string {
+	ind := "    "
+	if kind == "swagger" {
+		ind = "  "
+	}
+	var sb strings.Builder
+	sb.WriteString(doc)
+	for _, d := range [][2]string{{"_9a", "zip"}, {"9a", "Name"}, {"_1st", "k9"}, {"1st", "amount"}} {
+		fmt.Fprintf(&sb, "%s'%s':\n%s  type: object\n%s  properties:\n%s    %s:\n%s      type: string\n", ind, d[0], ind, ind, ind, d[1], ind)
+	}
+	return sb.String()
+}
+
 func repoDir() string {
 	if d := os.Getenv("VERIF_REPO"); d != "" {
 		return d
@@ -445,34 +501,82 @@ type cliCmd struct {
 	name string
 	args func(in *input) []string
 	out  string // "stdout" or a file / directory name relative to the work dir
+	prep func(dir string) // further files the command needs in the work dir
 }
 
+// textTemplate: a `sysl template` template that walks everything the evaluator hands to a template as a map
+// (applications, types, fields, endpoints) and writes one text file per application
+const textTemplate = `Tmpl:
+  !view start(module <: sysl.TemplateInput) -> sysl.TemplateResult:
+    module -> (:
+      apps = module.Apps -> <set of string> (app:
+        app = buildApp(app)
+      )
+    )
+
+  !view buildApp(app <: sysl.App) -> sysl.TemplateResult:
+    app -> (:
+      Data = "app " + app.name + "\n" + Join(typeLines(app.types) flatten(.out), "\n") + "\n" + Join(epLines(app.endpoints) flatten(.out), "\n") + "\n"
+      Filename = app.name + ".txt"
+    )
+
+  !view typeLines(types <: set of Type) -> sequence of string:
+    types -> (type:
+      out = "type " + type.key + " {" + Join(fieldLines(type.fields) flatten(.out), ",") + "}"
+    )
+
+  !view fieldLines(fields <: set of Type) -> sequence of string:
+    fields -> (field:
+      out = field.key
+    )
+
+  !view epLines(eps <: set of Endpoint) -> sequence of string:
+    eps -> (ep:
+      out = "ep " + ep.value.name
+    )
+`
+
 var cliCmds = []cliCmd{
-	{"cli:pb-json", func(in *input) []string { return []string{"pb", "--mode", "json", "m.sysl"} }, "stdout"},
-	{"cli:pb-textpb", func(in *input) []string { return []string{"pb", "--mode", "textpb", "m.sysl"} }, "stdout"},
-	{"cli:pb-split", func(in *input) []string { return []string{"pb", "--mode", "json", "-s", "split", "m.sysl"} }, "split"},
+	{"cli:pb-json", func(in *input) []string { return []string{"pb", "--mode", "json", "m.sysl"} }, "stdout", nil},
+	{"cli:pb-textpb", func(in *input) []string { return []string{"pb", "--mode", "textpb", "m.sysl"} }, "stdout", nil},
+	{"cli:pb-split", func(in *input) []string { return []string{"pb", "--mode", "json", "-s", "split", "m.sysl"} }, "split", nil},
 	{"cli:sd-groupby", func(in *input) []string {
 		return []string{"sd", "-a", in.SeqProj, "-g", in.Group, "-o", "sd/%(epname).puml", "m.sysl"}
-	}, "sd"},
+	}, "sd", nil},
 	{"cli:ints-clustered", func(in *input) []string {
 		return []string{"ints", "-j", in.Project, "-c", "-o", "ints/%(epname).puml", "m.sysl"}
-	}, "ints"},
+	}, "ints", nil},
 	{"cli:ints-epa", func(in *input) []string {
 		return []string{"ints", "-j", in.Project, "--epa", "-o", "epa/%(epname).puml", "m.sysl"}
-	}, "epa"},
+	}, "epa", nil},
 	{"cli:datamodel", func(in *input) []string {
 		return []string{"datamodel", "-j", in.Project, "-o", "data/%(epname).puml", "m.sysl"}
-	}, "data"},
+	}, "data", nil},
 	{"cli:export-openapi3", func(in *input) []string {
 		return []string{"export", "-f", "openapi3", "-o", "oas/%(appname).json", "m.sysl"}
-	}, "oas"},
+	}, "oas", nil},
 	{"cli:export-openapi3-yaml", func(in *input) []string {
 		return []string{"export", "-f", "openapi3", "-o", "oasy/%(appname).yaml", "m.sysl"}
-	}, "oasy"},
-	{"cli:pb-binary", func(in *input) []string { return []string{"pb", "--mode", "pb", "-o", "bin/m.pb", "m.sysl"} }, "bin"},
+	}, "oasy", nil},
+	{"cli:pb-binary", func(in *input) []string { return []string{"pb", "--mode", "pb", "-o", "bin/m.pb", "m.sysl"} }, "bin", nil},
+	{name: "cli:template", args: func(in *input) []string {
+		return []string{"tmpl", "--root", ".", "--root-template", ".", "--template", "tmpl.sysl", "--app-name", realApps(in)[0],
+			"--start", "start", "--outdir", "tmplout", "m.sysl"}
+	}, out: "tmplout", prep: func(dir string) { os.WriteFile(filepath.Join(dir, "tmpl.sysl"), []byte(textTemplate), 0o644) }},
+	// `sysl codegen` on the repository's own grammar + transform + model (tests/): the input does not depend on the model
+	{name: "cli:codegen-java", args: func(in *input) []string {
+		t := filepath.Join(repoDir(), "tests")
+		return []string{"gen", "--root", t, "--root-transform", t, "--transform", "test.gen_multiple_annotations.sysl",
+			"--grammar", "test.gen.g", "--app-name", "Model", "--start", "javaFile", "--outdir", "gen", "model.sysl"}
+	}, out: "gen"},
+	// `sysl transform` with an inline arr.ai script over the relational model of the module
+	{name: "cli:transform", args: func(in *input) []string {
+		return []string{"transform", "m.sysl", "--script",
+			`\input (output: input.models(0).rel.app => .appName)`}
+	}, out: "stdout"},
 	{"cli:db-scripts", func(in *input) []string {
 		return []string{"generate-db-scripts", "-t", "t", "-o", "db", "-a", strings.Join(realApps(in)[:2], ","), "-d", "postgres", "m.sysl"}
-	}, "db"},
+	}, "db", nil},
 }
 
 func (r *runner) cliOne(bin, name string, in *input, reps int) {
@@ -541,14 +645,29 @@ func (r *runner) cliOne(bin, name string, in *input, reps int) {
 }
 
 // quick tier: one command per command family (every run is a process start + parse of the model)
-var cliQuick = map[string]bool{"cli:pb-json": true, "cli:sd-groupby": true, "cli:ints-clustered": true,
+var cliQuick = map[string]bool{"cli:template": true, "cli:codegen-java": true, "cli:pb-json": true, "cli:sd-groupby": true, "cli:ints-clustered": true,
 	"cli:export-openapi3": true, "cli:pb-binary": true, "cli:datamodel": true}
 
 func (r *runner) cli(bin string, m *model, reps int, all bool) {
 	in := inputOf(m)
 	for i := range cliCmds {
 		if all || cliQuick[cliCmds[i].name] {
-			r.cliOne(bin, cliCmds[i].name, in, reps)
+			n := reps
+			switch cliCmds[i].name {
+			case "cli:template", "cli:codegen-java", "cli:transform":
+				// the code generators: fresh process 8 times (quick: 3)
+				n = 3
+				if all {
+					n = 8
+				}
+			}
+			if cliCmds[i].name == "cli:transform" {
+				// arr.ai builds the relational model of the whole module: minutes on a generated model, so the small
+				// hand-written corpus model (5 applications) is used
+				r.cliOne(bin, cliCmds[i].name, corpusInputs()[0], n)
+				continue
+			}
+			r.cliOne(bin, cliCmds[i].name, in, n)
 		}
 	}
 	r.c.Hist("stream:cli-model")
